@@ -10,7 +10,10 @@ RULE = ("MACHO: thin images built by the harness (32/64-bit, both byte orders, _
         "sizeofcmds, cmd, cmdsize, segment/section fields, LC_CODE_SIGNATURE fields; truncation at field boundaries; appended bytes); "
         "code directories over images of 0..20000 bytes (SHA-1/256/384, single-page) with every header field mutated; ops: pages "
         "(hashPages), cdir (newCodeDirectory byte for byte), cdparse (parseCodeDirectory), vpages (VerifyPages), scan (scanFile), patch "
-        "(PatchSignature + Dump/Load/Apply), sign (machos.Sign with real keys + apply + machos.Verify, also on relic's own output), vfy, "
+        "(PatchSignature + Dump/Load/Apply), sign (machos.Sign with real keys + apply + machos.Verify, also on relic's own output; incl. "
+        "images whose sizeofcmds exceeds the commands by 1..24 bytes, without (refused, fix F-MACHO-4) and with an LC_CODE_SIGNATURE "
+        "command (accepted)), signguard (machos.Sign + Verify with an entitlement that puts the size estimate at 9999992 / 9999993 / "
+        "10000000 / 10000001 / 10000008: the limit of fix F-MACHO-3, SHA-1/256/384, unsigned and with a too-small old region), vfy, "
         "mutate (C02: one-byte mutants of really signed images through machos.Verify), realsign (signer module, two rounds). "
         "Non-trivial = distinct op on which the model gets past the magic / length checks.")
 TRUSTED = ["Relic.Model.{CodeDir,MachO} are hand-written from lib/fruit/csblob/{pagehash,codedir,superblob,sign,verify,csblob}.go and "
@@ -19,6 +22,9 @@ TRUSTED = ["Relic.Model.{CodeDir,MachO} are hand-written from lib/fruit/csblob/{
            "debug/macho.NewFile is modelled only as far as readSigBlob depends on it (magic, header, load-command walk, segment decoding)"]
 ASSUMPTIONS = ["Mach-O theorems assume a regular thin layout (a __LINKEDIT command inside the load commands, LC_CODE_SIGNATURE behind it or "
                "room for one, __LINKEDIT ending at the end of the file); irregular inputs are exercised by the correspondence only",
+               "the size test of machos.Sign (fix F-MACHO-3) is tied at its boundary through the entitlement length (signguard ops); the "
+               "original witness (an image with more than 786 MB of code) and the reuse of an existing region above 10^7 bytes "
+               "(Regular.oldSmall, macho_reused_oversize_region_refused) are replayed by hand with harness/cmd/machobig, not in the tiers",
                "CMS signing/verification of the code directory and requirement compilation are opaque parameters",
                "fat binaries are out of scope"]
 
@@ -186,9 +192,16 @@ def predicate(prop, op, il, mres, tag):
     if k == "sign" and mres == "err noloc" and not il.startswith("panic") and prop in ("C01", "C03") and _kv(tag).get("le") == "0":
         return ("Relic.Props.C01.macho_irregular_refused_full", "refused (or verifiable output)",
                 "signing reported success but no signature can be located in the output (" + il + "; " + tag + ")")
-    if k == "sign" and mres == "err noloc" and il == "err noloc" and prop in ("C01", "C03") and _slack(_b(f[2])):
-        return ("Relic.Props.C01.macho_irregular_refused_full", "refused (or verifiable output)",
-                "signing reported success but the new LC_CODE_SIGNATURE lies behind unused bytes of sizeofcmds: no reader finds it (" + tag + ")")
+    if k == "sign" and prop in ("C01", "C03") and (il.startswith("ok ") or il == "err noloc") and _slack(_b(f[2])):
+        # fix F-MACHO-4 (/repo bd2b0c4): judged on the implementation's answer and the input alone
+        return ("Relic.Props.C01.macho_slack_refused", "err slack",
+                "an image without LC_CODE_SIGNATURE whose load commands do not fill sizeofcmds was signed: the new command lies behind "
+                "unused bytes, no reader finds it (" + il.split(" ")[0] + " " + il.split(" ")[-1] + ")")
+    if k == "signguard" and il.startswith("ok ") and prop in ("C01", "C03"):
+        # fix F-MACHO-3 (/repo 5805b39): what machos.Sign wrote must be readable by machos.Verify
+        if il.split(" ")[-1] != "verify=ok":
+            return ("Relic.Props.C01.macho_sign_then_verify_end_to_end / regular_small / macho_sign_refuses_oversize", "verify=ok or err signtoolarge",
+                    "relic's verifier rejects what relic signed: " + il)
     if k == "sign" and il.startswith("ok "):
         kv = _kv(tag)
         parts = dict(p.split("=", 1) for p in il.split(" ")[1:] if "=" in p)
@@ -246,7 +259,8 @@ def _trailing(kv):
 
 
 def _slack(inp):
-    """unsigned thin image whose sizeofcmds exceeds the sum of its command sizes (F-MACHO-4)"""
+    """thin image without LC_CODE_SIGNATURE whose sizeofcmds exceeds the sum of its command sizes (trigger of the repaired finding
+    F-MACHO-4: refused by scanFile, Relic.Props.C01.macho_slack_refused)"""
     if len(inp) < 32 or inp[:4] not in (b"\xcf\xfa\xed\xfe", b"\xce\xfa\xed\xfe", b"\xfe\xed\xfa\xcf", b"\xfe\xed\xfa\xce"):
         return False
     o = ">" if inp[0] == 0xfe else "<"
@@ -290,8 +304,8 @@ def matches_known(k, op, il, mres, tag):
     if site == "machos.Sign:trailing-bytes":
         return kind == "sign" and il.startswith("ok ") and mres.startswith("ok ") and mres.split(" ")[-1] == "verify=fail" and \
             il.split(" ")[-1].startswith("verify=fail") and _trailing(_kv(tag))
-    if site == "machos.scanFile:sizeofcmds-slack":
-        return kind == "sign" and il == "err noloc" and mres == "err noloc" and _slack(_b(op.split()[2]))
+    # F-MACHO-4 (site machos.scanFile:sizeofcmds-slack) and F-MACHO-3 are fixed (/repo bd2b0c4, 5805b39): no suppression any more;
+    # an implementation that signs such an image is reported by the predicate (macho_slack_refused / signguard) and as a broken tie
     if site == "machos.scanFile:no-linkedit":
         return kind == "sign" and il == "err noloc" and mres == "err noloc" and _kv(tag).get("le") == "0"
     return False
